@@ -334,11 +334,16 @@ impl WalManager {
             tx_id: current_tx,
         };
 
-        // Write checkpoint metadata atomically
-        self.write_checkpoint_metadata(&metadata)?;
+        // Write checkpoint metadata atomically. The temp-file-then-rename sequence uses
+        // one fixed temp path, so concurrent checkpoints must take turns: otherwise one
+        // renames the file the other is still writing and the other's rename fails.
+        {
+            let mut checkpoint_epoch = self.checkpoint_epoch.lock();
+            self.write_checkpoint_metadata(&metadata)?;
 
-        // Update in-memory checkpoint epoch
-        *self.checkpoint_epoch.lock() = Some(epoch);
+            // Update in-memory checkpoint epoch
+            *checkpoint_epoch = Some(epoch);
+        }
 
         // Optionally truncate old logs
         self.truncate_old_logs()?;
